@@ -7,11 +7,23 @@ from vt.core import alpha, bind, pool
 
 ID = "C15"
 LEVEL = "exploration"
-IMIN, IMAX, OMIN, OMAX = -1.0, 3.0, -2.0, 5.0
-MISS_IN = 1.5
+# (input_min, input_max, output_min, output_max, missing input): a range around 0 and one with a
+# strictly positive input_min and input range != output range
+RANGES = [(-1.0, 3.0, -2.0, 5.0, 1.5), (2.0, 5.0, -10.0, 5.0, 3.0)]
 LETTERS = (-50.0, -1.0, 0.0, 1.0, 50.0)
-XS = np.array([IMIN - 100, IMIN - 1, IMIN, IMIN + 1e-3, -0.3, 0.0, 0.7, 1.0, 2.2, IMAX - 1e-3,
-               IMAX, IMAX + 2, IMAX + 100], dtype=np.float32)
+
+
+def _set_range(item):
+  """Selects the keypoint ranges of this item (module globals read by the helpers below)."""
+  global IMIN, IMAX, OMIN, OMAX, MISS_IN, XS
+  IMIN, IMAX, OMIN, OMAX, MISS_IN = RANGES[item.get("rng", 0)]
+  w = IMAX - IMIN
+  XS = np.array([IMIN - 100, IMIN - 1, IMIN, IMIN + 1e-3, IMIN + 0.175 * w, IMIN + 0.25 * w,
+                 IMIN + 0.425 * w, IMIN + 0.5 * w, IMIN + 0.8 * w, IMAX - 1e-3,
+                 IMAX, IMAX + 2, IMAX + 100], dtype=np.float32)
+
+
+_set_range({})
 
 
 def pwl_items(tier):
@@ -21,9 +33,11 @@ def pwl_items(tier):
       for missing in ("no", "derived", "fixed"):
         for units in (1, 2):
           out.append(dict(kind="pwl", nk=nk, mode=mode, missing=missing, units=units))
+        out.append(dict(kind="pwl", nk=nk, mode=mode, missing=missing, units=1, rng=1))
   for nk in (2, 3):
     for units in (1, 2):
       out.append(dict(kind="pwl-forms", nk=nk, units=units))
+      out.append(dict(kind="pwl-forms", nk=nk, units=units, rng=1))
   return out
 
 
@@ -97,6 +111,7 @@ def pwl_case(item, ctx=None, only=None):
   keypoint positions; evaluating exactly at such a (numerically duplicated) keypoint is
   ill-conditioned, so the end-point clauses (clamps, cyclic) are judged only for
   well-conditioned input words, boundedness / monotonicity / missing for all."""
+  _set_range(item)
   mono, cmin, cmax, cyc, P_out, P_in = _params(item)
   units, missing = item["units"], item["missing"]
   if P_out <= 0:
@@ -142,10 +157,11 @@ def pwl_case(item, ctx=None, only=None):
 
 def forms_case(item, ctx=None):
   """Every documented parameter rank/broadcast form is accepted and gives the same function."""
+  _set_range(item)
   nk, units = item["nk"], item["units"]
   P_in, P_out = nk - 2, nk
   B = 4
-  xs = np.array([[-0.5], [0.2], [1.1], [2.9]], dtype=np.float32)
+  xs = (IMIN + (IMAX - IMIN) * np.array([[0.125], [0.3], [0.525], [0.975]])).astype(np.float32)
   ow = np.array([0.3, -1.0, 0.8, 2.0][:P_out], dtype=np.float32)
   iw = np.array([0.5, -0.7][:P_in], dtype=np.float32)
   def forms(vec, U):
